@@ -45,16 +45,18 @@ func c12Build(sc schemaSpec) *jsonapi.Schema {
 }
 
 // a soft type written by hand, whose relationships do not say where they start
+// and which uses one name for an attribute and a relationship
 func c12Loose() jsonapi.Type {
 	return jsonapi.Type{Name: "loose",
-		Attrs: map[string]jsonapi.Attr{"title": {Name: "title", Type: jsonapi.AttrTypeString}},
-		Rels: map[string]jsonapi.Rel{"r": {FromName: "r", ToOne: true, ToType: "other"}, "rs": {FromName: "rs", ToType: "other"}}}
+		Attrs: map[string]jsonapi.Attr{"title": {Name: "title", Type: jsonapi.AttrTypeString}, "both": {Name: "both", Type: jsonapi.AttrTypeString}},
+		Rels: map[string]jsonapi.Rel{"r": {FromName: "r", ToOne: true, ToType: "other"}, "rs": {FromName: "rs", ToType: "other"},
+			"both": {FromName: "both", ToOne: true, ToType: "other"}}}
 }
 
 func c12Gallina(sc schemaSpec) string {
 	var ts []string
 	for _, t := range sc.types {
-		ts = append(ts, t.gType())
+		ts = append(ts, sc.gTypeIn(t))
 	}
 	ts = append(ts, gType(c12Loose()), gType(jsonapi.Type{Name: "bare"}))
 	return "(mkSchema " + gList(ts) + ")"
